@@ -964,6 +964,9 @@ class Mixed(Family):
    <xs:element name="when" type="xs:dateTime" minOccurs="0"/>
    <xs:element name="bin" type="xs:hexBinary" minOccurs="0"/>
    <xs:element name="nil" type="xs:int" nillable="true" minOccurs="0"/>
+   <xs:element name="fx" fixed="abc" minOccurs="0" maxOccurs="unbounded">
+    <xs:complexType mixed="true"><xs:sequence><xs:element name="x" minOccurs="0"/></xs:sequence></xs:complexType>
+   </xs:element>
   </xs:sequence></xs:complexType>
  </xs:element>
 </xs:schema>'''}
@@ -991,6 +994,11 @@ class Mixed(Family):
         out.append(Doc('mx-missing', _decl() + '<doc><nums>1</nums></doc>', 'fault:structure'))
         out.append(Doc('mx-hugeyear', _decl() + '<doc><p/><when>99999999999-01-01T00:00:00</when></doc>',
                        'fault:lexical'))
+        # a fixed value on mixed content: given, left out, blank, wrong
+        out.append(Doc('mx-fixed-valid', _decl() + '<doc><p/><fx>abc</fx><fx/><fx></fx></doc>'))
+        out.append(Doc('mx-fixed-blank', _decl() + '<doc><p/><fx> </fx></doc>', 'fault:fixed'))
+        out.append(Doc('mx-fixed-wrong', _decl() + '<doc><p/><fx>abc</fx><fx>abd</fx></doc>', 'fault:fixed'))
+        out.append(Doc('mx-fixed-child', _decl() + '<doc><p/><fx>abc<x/></fx></doc>', 'fault:fixed'))
         return out
 
 
@@ -1641,11 +1649,13 @@ class Simple(Family):
         if version == '1.1':
             types11 = """
  <xs:complexType name="BaseAlt"><xs:attribute name="a" type="xs:string"/><xs:attribute name="b" type="xs:string"/>
-  <xs:attribute name="d" type="xs:string"/></xs:complexType>
+  <xs:attribute name="d" type="xs:string"/><xs:attribute name="m" type="AsInt"/></xs:complexType>
+ <xs:simpleType name="AsInt"><xs:restriction base="xs:integer"><xs:assertion test="$value idiv 3 ge 0"/></xs:restriction>
+  </xs:simpleType>
  <xs:complexType name="AltOne"><xs:complexContent><xs:extension base="BaseAlt"><xs:attribute name="one" type="xs:int"/>
   </xs:extension></xs:complexContent></xs:complexType>
  <xs:complexType name="AltEarly"><xs:complexContent><xs:extension base="BaseAlt">
-  <xs:assert test="xs:integer(@a) + 1 gt 0"/></xs:extension></xs:complexContent></xs:complexType>"""
+  <xs:assert test="xs:integer(@a) + 1 gt 0"/><xs:assert test="xs:integer(@a) ge 0.5e0"/></xs:extension></xs:complexContent></xs:complexType>"""
         return {'simple.xsd': f"""<xs:schema {XS} xmlns:f="urn:f">
  <xs:simpleType name="En"><xs:restriction base="xs:integer"><xs:enumeration value="1"/><xs:enumeration value="2"/>
   <xs:enumeration value="3"/></xs:restriction></xs:simpleType>
@@ -1662,7 +1672,12 @@ class Simple(Family):
  <xs:simpleType name="EnU"><xs:restriction base="IntOrInts"><xs:enumeration value="1"/><xs:enumeration value="2"/>
   </xs:restriction></xs:simpleType>
  <xs:simpleType name="EnL"><xs:restriction base="IntOrInts"><xs:enumeration value="1"/><xs:enumeration value="2 3"/>
-  </xs:restriction></xs:simpleType>{types11}
+  </xs:restriction></xs:simpleType>
+ <xs:simpleType name="Dates"><xs:list itemType="xs:date"/></xs:simpleType>
+ <xs:simpleType name="TwoDates"><xs:restriction base="Dates"><xs:enumeration value="2020-01-01 2020-01-02"/>
+  <xs:enumeration value="2021-05-05"/></xs:restriction></xs:simpleType>
+ <xs:simpleType name="QNs"><xs:list itemType="xs:QName"/></xs:simpleType>
+ <xs:simpleType name="TwoQNs"><xs:restriction base="QNs"><xs:enumeration value="f:a f:b"/></xs:restriction></xs:simpleType>{types11}
  <xs:element name="root">
   <xs:complexType><xs:sequence>
    <xs:element name="en" type="En"/><xs:element name="den" type="Den"/><xs:element name="fen" type="Fen"/>
@@ -1674,7 +1689,9 @@ class Simple(Family):
    <xs:element name="tok" type="xs:token" minOccurs="0"/><xs:element name="lang" type="xs:language" minOccurs="0"/>
    <xs:element name="un2" type="Un2" minOccurs="0" maxOccurs="unbounded"/>
    <xs:element name="enu" type="EnU" minOccurs="0" maxOccurs="unbounded"/>
-   <xs:element name="enl" type="EnL" minOccurs="0" maxOccurs="unbounded"/>{alt}
+   <xs:element name="enl" type="EnL" minOccurs="0" maxOccurs="unbounded"/>
+   <xs:element name="dl" type="TwoDates" minOccurs="0" maxOccurs="unbounded"/>
+   <xs:element name="ql" type="TwoQNs" minOccurs="0" maxOccurs="unbounded"/>{alt}
   </xs:sequence><xs:attribute name="n" type="xs:positiveInteger"/></xs:complexType>
  </xs:element>
 </xs:schema>"""}
@@ -1685,7 +1702,7 @@ class Simple(Family):
                 f'<qn>f:name</qn><hx>0A1B</hx><bo>true</bo>{version_alt}</root>\n')
 
     def docs(self, rng):
-        alts = '<alt a="1" b="1" d="2020-01-01"/><alt a="2" b="1" d="2020-12-01"/><alt a="5" b="5" one="1"/>'
+        alts = '<alt a="1" b="1" d="2020-01-01"/><alt a="2" b="1" d="2020-12-01" m="1"/><alt a="5" b="5" one="1"/>'
         docs = [
             Doc('si-valid', self._doc()),
             Doc('si-valid-alt', self._doc(alts), kind='valid11'),
@@ -1701,6 +1718,10 @@ class Simple(Family):
             Doc('si-valid-enu', self._doc('<enu>1</enu><enu>2</enu><enl>1</enl><enl>2 3</enl>'), tag='union-with-list-member'),
             Doc('si-bad-enu', self._doc('<enu>2 3</enu><enu>4</enu><enl>3 2</enl><enl>4</enl>'), 'fault:lexical',
                 tag='union-with-list-member'),
+            # facets of a restricted LIST are checked on typed items, whatever the decoder turns the items into
+            Doc('si-valid-datelist', self._doc('<dl>2020-01-01 2020-01-02</dl><dl>2021-05-05</dl><dl> 2020-01-01\n2020-01-02 </dl>'
+                                              '<ql>f:a f:b</ql>')),
+            Doc('si-bad-datelist', self._doc('<dl>2020-01-01 2020-01-03</dl><ql>f:a f:c</ql>'), 'fault:lexical'),
         ]
         for d in docs:
             d.prefix_dep = True      # <qn> holds a QName
